@@ -529,11 +529,11 @@ def run(pid, tier):
     return ck.finish(level="proof", trusted=["model of normalize.py / json_pointer.py: coq/Normalize.v (tied by stream N)",
                                              "specification of acceptance for the fragment: sem / semb (coq/JsonSemDnf.v, coq/JsonFragB.v), tied to the reference validator by stream NS",
                                              "outside the propositional-scalar fragment the statement is decided by the oracle and the correspondence, not by a theorem"],
-                     explanation="C06_fragment / C06_fragment_default / C06_fragment_exec: for every schema built from type, enum, the numeric / length / item-count bounds and the negated enum "
-                                 "with allOf, anyOf and not to any depth, whenever the model of normalize() returns (full merge, no duplicate detection) the any-of list it returns is satisfied by "
+                     explanation="C06_fragment / C06_fragment_default / C06_fragment_exec: for every schema built from type, enum, const, the numeric / length / item-count bounds and the negated enum "
+                                 "with allOf, anyOf, oneOf, not and if / then / else to any depth, whenever the model of normalize() returns (full merge, no duplicate detection) the any-of list it returns is satisfied by "
                                  "exactly the instances the schema accepts; layers C06_merge_alternatives, C06_invert_alternative, C06_merge_full, C06_invert, C06_to_dnf_fragment; the "
                                  "specification is executable (C06_spec_executable) and compared with jsonschema on generated documents x instance grids (stream NS), as are the model's and the "
-                                 "implementation's normal forms. Partial: properties, items, prefixItems, required, $ref, oneOf, if/then/else, const, multipleOf, 'integer', dependentRequired and the "
+                                 "implementation's normal forms. Partial: properties, items, prefixItems, required, $ref, multipleOf, 'integer', dependentRequired and the "
                                  "reduced-merge option are covered by keyword-level laws, the model/implementation correspondence (stream N) and the validator oracle over instance grids only")
 
 
@@ -593,11 +593,19 @@ def gen_fragment(rng, depth):
             if rng.random() < 0.3:
                 return {"not": {"enum": rng.sample([0, 1, 2, 3, 5, "a", "ab", True, None], rng.choice([1, 1, 2]))}}
             return gen_fragment(rng, depth - 1)
-        for k in ("allOf", "anyOf"):
-            if rng.random() < 0.45:
+        for k, pr in (("allOf", 0.4), ("anyOf", 0.4), ("oneOf", 0.25)):
+            if rng.random() < pr:
                 d[k] = [member() for _ in range(rng.choice([1, 2, 2, 3]))]
-        if rng.random() < 0.45:
+        if rng.random() < 0.4:
             d["not"] = member() if rng.random() < 0.5 else gen_fragment(rng, depth - 1)
+        if rng.random() < 0.3:
+            # conditionals: all shapes, including a lone if and then / else without if
+            shape = rng.choice(["ite", "it", "ie", "i", "t", "e", "te"])
+            for c, k in (("i", "if"), ("t", "then"), ("e", "else")):
+                if c in shape:
+                    d[k] = gen_fragment(rng, depth - 1)
+    if rng.random() < 0.15:
+        d["const"] = rng.choice([0, 1, 2, 3, 5, True, None, "a", "ab"])
     return d
 
 
@@ -637,6 +645,9 @@ def fragment_part(ck, rng, hist, tier):
         txt = json.dumps(d)
         fh["with_not"] += '"not"' in txt
         fh["with_anyOf_or_allOf"] += ('"anyOf"' in txt) or ('"allOf"' in txt)
+        fh["with_oneOf"] = fh.get("with_oneOf", 0) + ('"oneOf"' in txt)
+        fh["with_conditional"] = fh.get("with_conditional", 0) + any('"%s"' % k in txt for k in ("if", "then", "else"))
+        fh["with_const"] = fh.get("with_const", 0) + ('"const"' in txt)
         parts = dict(p.split("=", 1) for p in m.split("|") if "=" in p)
         if m.startswith("error=timeout"):
             fh["model_gave_up"] = fh.get("model_gave_up", 0) + 1
